@@ -234,9 +234,11 @@ impl<'a> Parser<'a> {
 
                 let is_declaration = if self.check_identifier() {
                     // Check if next is { (namespace declaration) or something else
+                    // (or a dotted name: namespace A.B { ... })
                     let saved2 = self.current.clone();
                     self.advance();
-                    let result = self.check(&TokenKind::LBrace);
+                    let result = self.check(&TokenKind::LBrace)
+                        || (self.check(&TokenKind::Dot) && !self.lexer.had_newline_before());
                     self.current = saved2;
                     result
                 } else {
@@ -1478,6 +1480,11 @@ impl<'a> Parser<'a> {
         self.advance();
 
         let id = self.parse_identifier()?;
+        // `namespace A.B.C { ... }` is `namespace A { export namespace B { export namespace C { ... } } }`
+        let mut inner_ids = vec![];
+        while self.match_token(&TokenKind::Dot) {
+            inner_ids.push(self.parse_identifier()?);
+        }
         self.require_token(&TokenKind::LBrace)?;
 
         let mut body = vec![];
@@ -1488,6 +1495,23 @@ impl<'a> Parser<'a> {
         self.require_token(&TokenKind::RBrace)?;
 
         let span = self.span_from(start);
+        while let Some(inner_id) = inner_ids.pop() {
+            let inner = NamespaceDeclaration {
+                id: inner_id,
+                body: body.into(),
+                span,
+            };
+            body = vec![Statement::Export(Box::new(ExportDeclaration {
+                declaration: Some(Box::new(Statement::NamespaceDeclaration(Box::new(inner)))),
+                specifiers: vec![],
+                source: None,
+                namespace_export: None,
+                star_export: false,
+                default: false,
+                type_only: false,
+                span,
+            }))];
+        }
         Ok(NamespaceDeclaration {
             id,
             body: body.into(),
